@@ -276,5 +276,33 @@ def run(ctx):
     else:
         c.require_pass(ctx, R7, fz7, c.LW + "internal::tx::update_stored_tx", ("call", c.WOB + "delete_private_context"), "delete_private_context requires update_stored_tx Ok")
         c.require_pass(ctx, R7, fz7, c.LW + "internal::tx::complete_tx", ("call", c.WOB + "delete_private_context"), "delete_private_context requires complete_tx Ok")
+    R8 = "C06.R8"
+    run.rule(R8, "an entry is cancelled together with the release of its outputs: the function that turns a log entry into its *Cancelled form writes the output record(s) in the same single batch", floor=2)
+    TLE = c.LW + "types::TxLogEntry"
+    TLT = c.LW + "types::TxLogEntryType"
+    n8 = 0
+    for fid, f in sorted(db.fns.items()):
+        if non_production(fid):
+            continue
+        lits = {st["d"][0] for bb in f.bbs for st in bb["s"] if st["k"] == "a" and not st["d"][1] and st["r"]["k"] == "agg" and st["r"].get("adt") == TLT and st["r"].get("var") in ("TxSentCancelled", "TxReceivedCancelled")}
+        cancels = []
+        for b, st in vf.field_assignments(f, TLE, "tx_type"):
+            r = st["r"]
+            if r["k"] == "agg" and r.get("adt") == TLT and r.get("var") in ("TxSentCancelled", "TxReceivedCancelled"):
+                cancels.append((b, st))
+            elif r["k"] == "use" and vf.op_place(r["o"]) and vf.op_place(r["o"])[0] in lits:
+                cancels.append((b, st))
+        if not cancels:
+            continue
+        n8 += 1
+        single_batch(ctx, R8, f)
+        ob = ctx.eff.effect_blocks(f, {"save_output", "delete_output"})
+        sb = ctx.eff.effect_blocks(f, {"save_tx_log_entry"})
+        held = bool(ob) and bool(sb)
+        run.instance(R8, {"fn": pp.short(fid), "obligation": "the batch that saves the cancelled entry also carries the output write (save / delete)", "output writes": len(ob), "entry writes": len(sb)}, held=held)
+        if not held:
+            run.finding(Finding(R8, fid, "a log entry is cancelled in a batch of its own; the output it refers to is released in a later batch: a crash in between leaves a reserved (or unconfirmed) output whose transaction is cancelled and that no cancel can release", site=c.site_of(f, cancels[0][0])))
+    if n8 == 0:
+        run.error("C06.R8: no function assigns a *Cancelled entry type (anchor missing)")
     run.not_decided += ["that the invariants hold at every crash point of every multi-batch operation (an enumeration over executions); R1-R3 are the structural conditions the code relies on", "LMDB's own atomicity / durability", "file-system semantics of rename/remove"]
     run.assumptions.append(_SUPPLY)
